@@ -906,7 +906,7 @@ func c15Seeds(r *vfRand, n int) []peer.ID {
 }
 
 // get: GetValue priority.  Values are identified by index (0 = "a", 1 = "b").
-func c15CaseGet(r *vfRand, combo int) c15Case {
+func c15CaseGet(r *vfRand, combo, order int) c15Case {
 	vals := [][]byte{[]byte("value a"), []byte("value b")}
 	valID := func(b []byte) int {
 		for i, v := range vals {
@@ -933,7 +933,6 @@ func c15CaseGet(r *vfRand, combo int) c15Case {
 		sc.lanReply.value = vals[lv]
 	}
 	// arrival order of the two inner results in the dual call: 0 unforced, 1 LAN first, 2 WAN first
-	order := r.Intn(3)
 	key := "/v/c15get"
 	if r.Chance(8) {
 		key = "/unknownns/c15get" // both inner DHTs fail with a validation error that is no sentinel
@@ -995,12 +994,11 @@ func c15CaseGet(r *vfRand, combo int) c15Case {
 }
 
 // findpeer: address union and error rule.
-func c15CaseFindPeer(r *vfRand, bnd []c15Cand, combo int) c15Case {
+func c15CaseFindPeer(r *vfRand, bnd []c15Cand, combo, order int) c15Case {
 	pool := c15NewPool(r, bnd)
 	target := c15PeerID(r)
 	sc := c15Script{wanSeeds: c15Seeds(r, (combo&1)*(1+r.Intn(2))), lanSeeds: c15Seeds(r, ((combo>>1)&1)*(1+r.Intn(2)))}
 	var wResp, lResp []c15Addr
-	order := r.Intn(3)     // arrival order of the inner results in the dual call: 0 unforced, 1 LAN first, 2 WAN first
 	if (combo>>2)&1 == 1 { // the WAN seeds know the target
 		wResp = pool.list(r.Intn(4))
 		if r.Chance(60) {
@@ -1262,16 +1260,16 @@ func TestVerifC15(t *testing.T) {
 				case 5:
 					c = c15CaseWrite(r, bnd, (j/10)%8)
 				case 6, 7, 8, 9:
-					// all 16 combinations in turn; every other round both tables are forced non-empty
-					combo := (j / 10) % 16
-					if (j/160)%2 == 1 {
-						combo |= 3
-					}
+					// all 16 combinations of (WAN table, LAN table, WAN has it, LAN has it) in turn, the
+					// all-true one (where the merge rules matter) most often; the arrival order cycles
+					combos := []int{15, 15, 7, 11, 15, 13, 14, 15, 5, 10, 15, 3, 12, 15, 0, 6, 9, 15, 1, 2, 4, 8}
+					combo := combos[(j/10)%len(combos)]
+					order := (j / 10) % 3
 					switch j % 10 {
 					case 6:
-						c = c15CaseGet(r, combo)
+						c = c15CaseGet(r, combo, order)
 					case 7:
-						c = c15CaseFindPeer(r, bnd, combo)
+						c = c15CaseFindPeer(r, bnd, combo, order)
 					default:
 						c = c15CaseProv(r, bnd, []int{3, 1, 3, 2, 3, 0}[(j/10)%6])
 					}
